@@ -11,7 +11,9 @@ LEVEL_TEXT = ("TLC evaluates the run-by-run reference comparison of VerCmp.tla o
               "antisymmetry and the stated ordering clauses on the reference, and emits the full table. Every ordered pair is executed on the "
               "real spiftool_version_compare (ASan build, exact-size heap arguments): twice with the stack pre-filled with 0xAA / 0x55 and once "
               "in the other direction; results must be equal, negations of each other and equal to the table. A family of pairs with runs of "
-              "126..130 and 1000 characters of each class and seeded random pairs is evaluated by the same TLC operators and replayed the same way.")
+              "126..130 and 1000 characters of each class and seeded random pairs is evaluated by the same TLC operators and replayed the same way. "
+              "Every row and pair is executed at each run-time debug level of the specification's DebugLevels (0, 1, 3, 5); the file family "
+              "holds every byte value 1..255 as separator / distinguishing character.")
 LEVEL_NOTE = ("Exhaustive only over those bounded universes. A value is claimed only when no run exceeds 127 characters (longer runs: memory "
               "safety, determinism, antisymmetry and reflexivity only) and not when the longer text continues with a word that merely begins with "
               "snap/pre/alpha/beta (either outcome accepted). The result of the mixed-class case is fixed as the comparison of the remaining texts "
